@@ -123,6 +123,28 @@ class Engine(object):
             self.models.append(self.solver.model())
         return r == z3.sat
 
+    def check_fresh(self, *extra):
+        """Final (large) queries: a fresh non-incremental solver gets z3's full preprocessing, which
+        is often orders of magnitude faster than the incremental core; fall back to the incremental
+        solver when it answers unknown."""
+        t = time.time()
+        if self.deadline is not None and t > self.deadline:
+            raise Inconclusive("task wall-clock budget exhausted")
+        s = z3.Solver()
+        s.set('timeout', self.timeout_ms)
+        s.add(self.solver.assertions())
+        s.add(*extra)
+        r = s.check()
+        self.stats['queries'] += 1
+        self.stats['solver_s'] += time.time() - t
+        if r == z3.unknown:
+            return self.check(*extra)
+        if r == z3.sat:
+            if len(self.models) >= 6:
+                self.models.pop(0)
+            self.models.append(s.model())
+        return r == z3.sat
+
     def branch(self, cond):
         """cond: z3 Bool.  Returns a Python bool, forking the exploration when both are feasible."""
         cond = z3.simplify(cond)
@@ -232,7 +254,7 @@ class Engine(object):
         if cond is False:
             cond = z3.BoolVal(False)
         try:
-            sat = self.check(z3.Not(cond))
+            sat = self.check_fresh(z3.Not(cond))
         except Inconclusive as e:
             self.stats['inconclusive'] += 1
             rec['status'] = 'inconclusive'
